@@ -7,7 +7,9 @@ use crate::model::*;
 use crate::prng::Rng;
 use aidl_parser::ast::AndroidTypeKind;
 
-pub const PACKAGES: &[&str] = &["pkg", "other.pkg", "pkg.sub", "a", "a.b.c.d", "x.pkg"];
+pub const PACKAGES: &[&str] = &["pkg", "other.pkg", "pkg.sub", "a", "a.b.c.d", "x.pkg", "apkg", "xpkg"];
+/// keys nobody defines: used both as imports and as qualified forward declarations (in different files)
+pub const PHANTOM_KEYS: &[&str] = &["nope.Missing", "nope.Foo", "q.Fwd", "q.Baz", "ghost.pkg.Bar", "nope.IBinder"];
 pub const ITEM_NAMES: &[&str] = &["Foo", "XFoo", "FooX", "Bar", "Fo", "IFoo", "Foo2", "oo", "Baz", "Array", "Level", "foo", "FOO"];
 
 pub fn builtin_qualified() -> Vec<String> {
@@ -163,7 +165,13 @@ pub fn project(rng: &mut Rng, cfg: &ProjCfg) -> Proj {
                 7 | 8 => rng.pick(&builtins).clone(),
                 9 if !imports.is_empty() => rng.pick(&imports).clone(), // duplicate
                 10 => format!("{}.{}", rng.pick_str(PACKAGES), rng.pick_str(ITEM_NAMES)),
-                _ => format!("nope.{}", rng.pick_str(&["Missing", "Foo", "Gone", "IBinder"])),
+                _ => {
+                    if rng.chance(1, 2) {
+                        rng.pick_str(PHANTOM_KEYS).to_string()
+                    } else {
+                        rng.pick_str(gen::REAL_WORLD_IMPORTS).to_string()
+                    }
+                }
             };
             if !cfg.allow_ambiguous {
                 let simple = cand.rsplit('.').next().unwrap().to_string();
@@ -180,7 +188,7 @@ pub fn project(rng: &mut Rng, cfg: &ProjCfg) -> Proj {
             let segs = match rng.below(8) {
                 0..=2 => vec![rng.pick_str(&["Fwd", "Decl", "Baz", "Fwd2"]).to_string()],
                 3 if !imports.is_empty() => vec![rng.pick(&imports).rsplit('.').next().unwrap().to_string()], // shadowed by an import
-                4 => split(&format!("q.{}", rng.pick_str(&["Fwd", "Baz"]))),
+                4 => split(rng.pick_str(PHANTOM_KEYS)),
                 5 if !declared.is_empty() => rng.pick(&declared).segs.clone(), // duplicate
                 6 => vec![rng.pick_str(ITEM_NAMES).to_string()],
                 _ => vec![rng.pick_str(&["Fwd", "IBinder"]).to_string()],
